@@ -16,7 +16,8 @@ VERIF = os.path.dirname(os.path.dirname(os.path.abspath(__file__)))
 def default_plugins():
     from .plug_json import JsonPlugin
     from .plug_types import TypesPlugin
-    return [TypesPlugin(), JsonPlugin()]
+    from .plug_pyval import PyValPlugin
+    return [TypesPlugin(), PyValPlugin(), JsonPlugin()]
 
 
 def build(repo=None, opts=None, plugins=()):
